@@ -6,6 +6,7 @@ from pyvc.spec import *   # noqa
 def declare(spec):
     _declare(spec)
     declare_start(spec)
+    declare_reap(spec)
 
 
 def _declare(spec):
@@ -118,3 +119,48 @@ def declare_start(spec):
             "forall(INT, lambda m: implies(loop_i <= m and m < loop_n, (loop_seq[m]._status == 'stopped' or loop_seq[m]._status == 'active')))",
             "forall(INT, lambda m: implies(loop_i <= m and m < loop_n, implies(loop_seq[m]._status == 'stopped', len(loop_seq[m].processes) == 0)))",
         ], fingerprint='for:watchers')}))
+
+
+def declare_reap(spec):
+    """C04 (arbiter half): the periodic waitpid(-1) loop collects every terminated child and reports those it knows."""
+    RKEEP = ("(length(reaplog) >= length(old(reaplog)) and forall(INT, lambda i: implies(0 <= i and "
+             "i < length(old(reaplog)), reaplog[i] == old(reaplog)[i])))")
+    ALLW = ("forall(INT, lambda i: implies(0 <= i and i < length(self.watchers), not isnull(self.watchers[i]) and "
+            "wf_procs_pid(self.watchers[i]) and forall(INT, lambda k: implies(k in self.watchers[i].processes, k > 0))))")
+    KCH = "forall(INT, lambda p: implies(p in K_child, p in old(K_child)))"
+    spec.add(Contract(
+        'circus.arbiter:Arbiter.reap_processes',
+        requires=[ALLW],
+        ensures=[
+            # when the loop ends because waitpid found nothing more to collect, no terminated child is left unreaped
+            ('no-zombie-left', "forall(INT, lambda p: implies(p in K_child, p in K_alive))"),
+            KCH, RKEEP,
+            # a reap event is published only for a pid that had terminated
+            ('reaped-were-dead', "forall(INT, lambda i: implies(length(old(reaplog)) <= i and i < length(reaplog), "
+             "not (ev_pid(reaplog[i]) in K_child)))"),
+            "same_field('Arbiter.watchers', 'Arbiter._watchers_names', 'Watcher._status', 'Watcher.numprocesses')",
+        ],
+        raises={'OSError': [KCH, RKEEP]},
+        modifies=['Watcher.processes', 'evlog', 'reaplog', 'hooklog', 'clock', 'K_alive', 'K_child', 'siglog',
+                  'Process.closed'],
+        local_types={'watchers_pids': Dict(INT, Ref('Watcher'))},
+        loops={
+            0: Loop(invariant=[
+                "forall(INT, lambda k: implies(k in watchers_pids, k > 0 and not isnull(watchers_pids[k]) and "
+                "contains(self.watchers, watchers_pids[k])))"],
+                fingerprint='for:self.iter_watchers()', modifies=[]),
+            1: Loop(invariant=[
+                "forall(INT, lambda k: implies(k in watchers_pids, k > 0 and not isnull(watchers_pids[k]) and "
+                "contains(self.watchers, watchers_pids[k])))", "not isnull(watcher)", "contains(self.watchers, watcher)"],
+                fingerprint='for:watcher.processes.values()', modifies=[]),
+            2: Loop(invariant=[
+                KCH, RKEEP, ALLW,
+                "forall(INT, lambda i: implies(length(old(reaplog)) <= i and i < length(reaplog), "
+                "not (ev_pid(reaplog[i]) in K_child)))",
+                "forall(INT, lambda k: implies(k in watchers_pids, k > 0 and not isnull(watchers_pids[k]) and "
+                "contains(self.watchers, watchers_pids[k])))",
+                "same_field('Arbiter.watchers', 'Arbiter._watchers_names', 'Watcher._status', 'Watcher.numprocesses')",
+            ], fingerprint='while:True',
+                modifies=['Watcher.processes', 'evlog', 'reaplog', 'hooklog', 'clock', 'K_alive', 'K_child', 'siglog',
+                          'Process.closed'])},
+    ))
